@@ -26,8 +26,17 @@ def ex_lcproto(repo):
                                                                       s4.item(r'^impl HeaderUtils for HeaderView')]
 
 
+def ex_lastn(repo):
+    return common.status_code(repo) + common.peer_state_types(repo) + common.last_n_selection(repo)
+
+
 def obligations():
     return [
+        KModelOb('O12.5-remembered-headers', 'lastn', 'select_last_headers', 'SendLastStateProofProcess::execute, selection of the headers remembered with the new prove state (real text): '
+                 'the reorg section is kept as is; the remembered last headers END with the last min(count, N) headers of the proof, are never more than N, exactly N when the proof '
+                 'carries at least N, and are otherwise completed from the tail of the previously remembered (or reorg) headers - what commit_prove_state later compares forks against',
+                 ex_lastn, 'N in 1..3; <=2 reorg, <=1 sampled, 1..4 last headers (<=5 in all); <=2 previously remembered headers; arbitrary header contents', cuts=CUTS,
+                 timeout=1200, mem_gb=10, min_covers=2, weight=3),
         KModelOb('O12.4-child-path', 'lcproto', 'child_fast_path',
                  'SendLastStateProcess::execute + update_prove_state_to_child (real text), peer Ready on an arbitrary proven header: the tip '
                  'is stored / the prove state replaced only if the header check passed, the header is a linked child of the proven one, '
